@@ -10,6 +10,7 @@ CLAIMED = {
  "C03": ("model_checking", "Every reachable state of (real FHDL of the stream element x legal producer x scoreboard) under every valid/ready choice per cycle, to closure, for the listed parameter menu; scoreboard reference models per element.", TB, MC, "fsmc"),
  "C04": ("model_checking", "Same closed state graphs as C03/C16 with the valid/payload stability monitor on every transition and Tarjan-SCC search for cooperative cycles without (output) progress (deadlock/livelock/starvation).", TB + " Liveness is judged under cooperation.", MC + " + fair-cycle (SCC) detection on the explored graph", "fsmc"),
  "C16": ("model_checking", "Closure of (real Packetizer/Depacketizer/loop/PacketFIFO/Arbiter/Dispatcher x producers x byte-layout scoreboard written from the Header definition) under every valid/ready/sel schedule for a menu of header layouts, data widths and packet lengths.", TB, MC, "fsmc"),
+ "C12": ("model_checking", "Closure of (real CSRBank FHDL x register-file reference derived from the description) under every bus operation (all words, first word past the bank, same offset in another page; 3 data values; reads) x device-side inputs per cycle, for register menus covering sizes around the bus word, atomic writes, device-writable storages, read/write statuses, raw CSRs, fields with pulse/reset/offset, fixed locations, bus 8/32, big/little ordering, paging.", TB, MC, "fsmc"),
  "C15": ("model_checking", "Closure of (real EventManager + real CSRBank [+ SharedIRQ] x reference model of pending/status/enable/irq) under every trigger vector x every CSR bus operation per cycle, so trigger and clear coincide in every alignment; all 1..2-source mixes (quick) and 3-source mixes (thorough), bus 8/32.", TB, MC, "fsmc"),
  "C18": ("exploration", "Real ECCEncoder/ECCDecoder FHDL evaluated on all data words x all single and double flips for k<=8 (quick) / k<=11 (thorough), structured word sets x all flips for larger k up to 128, enable=0 pass-through, geometry helpers vs an independent Hamming construction for k=1..256.", "Trusted: fast stepper (sampled conformance vs the real Evaluator, violations replayed on run_simulation), the independent Hamming reference; for large k the claim is 'all flips x this word set', not all words.", "exhaustive enumeration of inputs x fault patterns over the real combinational FHDL against a reference code", "seqx"),
 }
